@@ -271,6 +271,9 @@ fn sm9_c1(ct: &[u8]) -> G1 {
 }
 
 pub fn replay(ctx: &Arc<Ctx>, v: &Value) {
+    if crate::cold::replay(ctx, v) {
+        return;
+    }
     let c: Case = serde_json::from_value(v.clone()).expect("C10 case");
     eval(ctx, &c);
 }
@@ -370,4 +373,5 @@ pub fn run(ctx: &Arc<Ctx>) {
         run_sequences(ctx, &seqs, eval);
     }
     let _ = (BigUint::zero(), hook::rng_queue_len);
+    crate::cold::check(ctx, "C10");
 }
